@@ -6,6 +6,8 @@ Helper lemmas: InToto/Proofs/PipeInspect.lean.
 import InToto.Model.Verify
 import InToto.Proofs.PipeInspect
 import InToto.Proofs.Pipeline
+import InToto.Generated.Facts
+import InToto.Model.StageOrder
 
 namespace InToto.C09
 open InToto InToto.Verify InToto.PipeProofs InToto.PipelineProofs InToto.Json InToto.Schema InToto.Metadata
@@ -100,5 +102,16 @@ theorem last_stage_accepts_iff (W : World) (rd : RunDirState) (sn : Str) (lay : 
             { fs := acc1.fs, ran := acc1.ran, links := [] }).2.links)).isOk = true ∧
         s = summaryOf (layoutSteps lay) red sn :=
   finishStage_ok_iff W rd sn lay res acc1 s
+
+/-- REGENERATED FACT (stage order): in both entry points the artifact rules and the inspections are
+    run as `VerifyArtifacts` (steps), `RunInspections`, `VerifyArtifacts` (inspections), each
+    unconditionally, and signature thresholds, sublayouts and link reduction come before the inspections -/
+theorem facts_inspections_after_step_checks :
+    (StageOrder.restrict Generated.stagesInTotoVerify ["VerifyArtifacts", "RunInspections"] =
+      [("VerifyArtifacts", false), ("RunInspections", false), ("VerifyArtifacts", false)]) ∧
+    (StageOrder.restrict Generated.stagesInTotoVerifyWithDirectory ["VerifyArtifacts", "RunInspections"] =
+      [("VerifyArtifacts", false), ("RunInspections", false), ("VerifyArtifacts", false)]) ∧
+    (StageOrder.before Generated.stagesInTotoVerify "VerifyLinkSignatureThesholds" "RunInspections" && StageOrder.before Generated.stagesInTotoVerify "VerifySublayouts" "RunInspections" && StageOrder.before Generated.stagesInTotoVerify "ReduceStepsMetadata" "RunInspections") = true ∧
+    (StageOrder.before Generated.stagesInTotoVerifyWithDirectory "VerifyLinkSignatureThesholds" "RunInspections" && StageOrder.before Generated.stagesInTotoVerifyWithDirectory "VerifySublayouts" "RunInspections" && StageOrder.before Generated.stagesInTotoVerifyWithDirectory "ReduceStepsMetadata" "RunInspections") = true := by decide
 
 end InToto.C09
